@@ -886,4 +886,64 @@ theorem C03_written_refuted : ¬ C03_written_statement := by
   have := h fillWitness fillWitness_inv (.cellFillTr 0)
   simp [written, render, α, fillWitness] at this
 
+/-! ## valid edits are accepted -/
+
+/-- `i` addresses an existing object (written as the negation of the guard of the code) -/
+abbrev inRange (i n : Nat) : Prop := ¬ (i ≥ n)
+
+/-- the documented preconditions of each setter: existing objects, arguments of the documented type and range,
+    new numbers not in use.  (Number arguments are `int`s, values are `float`s; the model also accepts the other
+    spellings Python allows.) -/
+def Valid (p : Problem) : Edit → Prop
+  | .cellNumber i (.int n) => inRange i p.ncells ∧ ¬ (n ≤ 0) ∧ (numbersInUse p .cellNumber p.ncells).contains (n : Rat) = false
+  | .surfNumber i (.int n) => inRange i p.nsurfs ∧ ¬ (n ≤ 0) ∧ (numbersInUse p .surfNumber p.nsurfs).contains (n : Rat) = false
+  | .matNumber i (.int n) => inRange i p.nmats ∧ ¬ (n ≤ 0) ∧ (numbersInUse p .matNumber p.nmats).contains (n : Rat) = false
+  | .trNumber i (.int n) => inRange i p.ntrs ∧ ¬ (n ≤ 0) ∧ (numbersInUse p .trNumber p.ntrs).contains (n : Rat) = false
+  | .uniNumber u (.int n) => inRange u p.nunis ∧ ¬ (n ≤ 0) ∧ (uniNumbersInUse p).contains n = false
+  | .material i none => inRange i p.ncells
+  | .material i (some m) => inRange i p.ncells ∧ inRange m p.nmats
+  | .atomDensity i (.float q) => inRange i p.ncells ∧ ¬ (q < 0)
+  | .massDensity i (.float q) => inRange i p.ncells ∧ ¬ (q < 0)
+  | .delDensity i => inRange i p.ncells
+  | .importance i part (.float q) => inRange i p.ncells ∧ (modeParts p).contains part = true ∧ ¬ (q < 0)
+  | .importanceAll i (.float q) => inRange i p.ncells ∧ ¬ (q < 0)
+  | .volume i (.float q) => inRange i p.ncells ∧ ¬ (q < 0)
+  | .volume i .none => inRange i p.ncells
+  | .delVolume i => inRange i p.ncells
+  | .lattice i (.int n) => inRange i p.ncells ∧ (n = 1 ∨ n = 2)
+  | .delLattice i => inRange i p.ncells
+  | .universe i u => inRange i p.ncells ∧ inRange u p.nunis
+  | .notTruncated i (.bool false) => inRange i p.ncells
+  | .fillUniverse i none => inRange i p.ncells
+  | .fillUniverse i (some u) => inRange i p.ncells ∧ inRange u p.nunis
+  | .fillTransform i none => inRange i p.ncells
+  | .fillTransform i (some t) => inRange i p.ncells ∧ inRange t p.ntrs
+  | .location i (.float _) => inRange i p.nsurfs ∧ p.surfKind i = .axisPlane
+  | .reflecting i (.bool _) => inRange i p.nsurfs
+  | .white i (.bool _) => inRange i p.nsurfs
+  | .surfTransform i none => inRange i p.nsurfs
+  | .surfTransform i (some t) => inRange i p.nsurfs ∧ inRange t p.ntrs
+  | .periodic i none => inRange i p.nsurfs
+  | .periodic i (some j) => inRange i p.nsurfs ∧ inRange j p.nsurfs ∧ p.surfKind j = p.surfKind i
+  | .displacement t xs => inRange t p.ntrs ∧ ¬ (xs.length ≠ 3)
+  | .rotation t xs => inRange t p.ntrs ∧ ¬ (xs.length < 5 ∨ xs.length > 9)
+  | .inDegrees t (.bool _) => inRange t p.ntrs
+  | .mainToAux t (.bool _) => inRange t p.ntrs
+  | .modeAdd _ => True
+  | .modeRemove part => (modeParts p).contains part = true
+  | .modeSet _ => True
+  | .title _ => True
+  | _ => False
+
+/-- **C03_accepts.**  A valid edit is accepted: no check of the setter fires. -/
+theorem C03_accepts (p : Problem) (e : Edit) (hv : Valid p e) : ∃ p', applyEdit p e = .ok p' := by
+  have key : ∃ as, plan p e = .ok as := by
+    unfold Valid at hv
+    split at hv <;>
+      simp_all [plan, setNumber, setFloat, setBoolField, pyNum, inRange] <;>
+      (repeat' split) <;>
+      first | exact ⟨_, rfl⟩ | omega
+  obtain ⟨as, hp⟩ := key
+  exact ⟨execActions p as, by simp [applyEdit, hp]⟩
+
 end MontePyVerif.Edits
